@@ -71,7 +71,7 @@ def build_machine():
 
     cfg_strategy = st.fixed_dictionaries({}, optional={
         "verbose": st.booleans(),
-        "delta": st.sampled_from([1e-6, 0.001, 0.5]),
+        "delta": st.sampled_from([1e-6, 0.001, 0.5, 0.0]),
         "scheme": st.lists(st.sampled_from(SCHEMES), max_size=3, unique=True),
         "stiff_states": st.lists(st.sampled_from(stiff_pool), max_size=3, unique=True),
         "python": st.fixed_dictionaries({}, optional={"format": st.sampled_from(["none", "black"]),
